@@ -9,7 +9,7 @@
 """
 from qv.core import AnalysisBroken
 from qv.esp import Engine, Outcome, TOP, fs
-from qv.lib import QHooks, transitive_callees
+from qv.lib import QHooks, transitive_callees, lit_of, branch_zero_test
 
 REPS = [199, 220, 221, 250, 354, 399, 400, 450, 499, 500, 550, 999]
 
@@ -101,8 +101,8 @@ class SmtpHooks(QHooks):
             E.set('$phase', fs(ph))
 
     def prim_substdio_puts(self, E, x, args):
-        if x.args[0].strip().k == 'un' and x.args[0].strip().args[0].path() == 'G:smtpto':
-            self._send(E, x, x.args[1].string)
+        if x.args[0].strip().k == 'un' and x.args[0].strip().args and x.args[0].strip().args[0].path() == 'G:smtpto':
+            self._send(E, x, lit_of(E, x.args[1]))
         return [Outcome(ret=TOP)]
 
     prim_substdio_putsflush = prim_substdio_puts
@@ -121,7 +121,7 @@ class SmtpHooks(QHooks):
         return [Outcome(ret=TOP, log='blast()')]
 
     def prim_out(self, E, x, args):
-        lit = x.args[0].string
+        lit = lit_of(E, x.args[0])
         if lit in ('h', 's', 'r') and self.g(E, '$phase') == 'rcpt':
             self.resolve_pending(E, x, lit)
             self.site('one-letter-per-recipient', x, self.g(E, '$rcptopen', 0) == 1, 'recipient letter without a RCPT', E)
@@ -142,7 +142,7 @@ class SmtpHooks(QHooks):
 
     def prim_quit(self, E, x, args):
         self.quits += 1
-        lit = x.args[0].string
+        lit = lit_of(E, x.args[0])
         letter = lit[0] if lit else '?'
         pend = self.g(E, '$pending')
         if pend is None:
@@ -387,25 +387,35 @@ def run(ctx):
     r3.check(bool(first) and first[0] == 'Z', 'dropped-reports-Z', '%s:%d' % (dr.unit, dr.line), 'dropped() first output is %r' % first)
     dup = [c for c in outs if c.args[0].string and 'duplicate' in c.args[0].string.lower()]
     okd = bool(dup)
+    flag = None
     for c in dup:
         g = dr.guards(c) or []
-        okd = okd and any(cc.path() == 'G:flagcritical' and t is True for cc, t in g)
-    r3.check(okd, 'possible-duplicate-iff-flagcritical', '%s:%d' % (dr.unit, dr.line), 'the duplicate warning must be guarded by flagcritical')
+        hit = [cc for cc, t in g if branch_zero_test(cc, t, lambda v: (v.path() or '').startswith('G:')) == 'nonzero']
+        okd = okd and bool(hit)
+        if hit:
+            from qv.lib import _cmp_parts
+            flag = _cmp_parts(hit[0])[0].path()
+    r3.check(okd, 'possible-duplicate-iff-the-critical-flag', '%s:%d' % (dr.unit, dr.line), 'the duplicate warning must be guarded by the flag that marks the window after the final dot')
     r3.check(dr.noreturn, 'dropped-noreturn', '%s:%d' % (dr.unit, dr.line), 'dropped() must not return')
-    # flagcritical = 0 only after the smtpcode() that follows blast()
-    clears = [x for x in smtp.all_x() if x.k == 'asg' and x.args[0].path() == 'G:flagcritical']
+    if flag is None:
+        raise AnalysisBroken('dropped(): the flag guarding the duplicate warning was not identified')
+    # the flag is cleared only after the smtpcode() that follows blast()
+    clears = [x for x in smtp.all_x() if x.k == 'asg' and x.args[0].path() == flag]
     bl = smtp.calls('blast')
     if not bl:
         raise AnalysisBroken('smtp(): blast() not found')
     for x in clears:
         after = [c for c in smtp.calls('smtpcode') if smtp.dominates(bl[0], c) and smtp.dominates(c, x)]
-        r3.check(x.args[1].const == 0 and bool(after), 'flagcritical-cleared-after-final-reply', x.where, 'flagcritical cleared before the reply to the final dot was read')
+        r3.check(x.args[1].const == 0 and bool(after), 'critical-flag-cleared-after-final-reply', x.where, 'the flag is cleared before the reply to the final dot was read')
+    blf = prog.fn('blast', 'qmail-remote.c')
+    sets1 = [x for x in blf.all_x() if x.k == 'asg' and x.args[0].path() == flag and x.args[1].const == 1]
+    r3.check(bool(sets1), 'critical-flag-set-in-blast', blf.unit + ':blast', 'blast() does not set the flag before the final dot')
     for fn in prog.functions():
         if fn.unit != 'qmail-remote.c' or fn.name in ('smtp', 'blast'):
             continue
         for x in fn.all_x():
-            if x.k == 'asg' and x.args[0].path() == 'G:flagcritical':
-                r3.bad('flagcritical-assigned-in-%s' % fn.name, x.where, 'flagcritical is written outside blast()/smtp()')
+            if x.k == 'asg' and x.args[0].path() == flag:
+                r3.bad('critical-flag-assigned-in-%s' % fn.name, x.where, 'the flag is written outside blast()/smtp()')
     r3.expect_min(5)
 
     # ---- 4 smtpcode framing
